@@ -91,8 +91,29 @@ MUTANTS = [
      "            self.runner.tests_by_layer_name[layer] = suite.__class__(tests)",
      "            self.runner.tests_by_layer_name[layer] = suite.__class__(tests[1:] if len(tests) > 3 else tests)"),
     ('no-stream-restore-in-stopTest', 'C18', R,
-     "        self._restoreStdStreams()\n        self.testTearDown()",
-     "        self.testTearDown()"),
+     "        try:\n            self._restoreStdStreams()\n        finally:\n"
+     "            if self.options.buffer:",
+     "        if True:\n            pass\n        if True:\n"
+     "            if False:"),
+    ('stream-restore-not-in-finally', 'C13', R,
+     "        try:\n            self._restoreStdStreams()\n        finally:\n"
+     "            if self.options.buffer:",
+     "        self._restoreStdStreams()\n        if True:\n"
+     "            if self.options.buffer:"),
+    ('coverage-forgets-previous-tracer', 'C18', 'src/zope/testrunner/coverage.py',
+     "            sys.settrace(previous)\n            threading.settrace(previous_threading)",
+     "            sys.settrace(None)\n            threading.settrace(None)"),
+    ('list-only-skips-feature-teardown', 'C18', R,
+     "                for feature in reversed(self.features):\n"
+     "                    feature.global_teardown()",
+     "                for feature in reversed(self.features):\n"
+     "                    if self.do_run_tests:\n"
+     "                        feature.global_teardown()"),
+    ('count-test-cases-ignored', 'C12', R,
+     "        self.testsRun = testsRun + count", "        self.testsRun = testsRun + 1"),
+    ('child-started-through-realpath', 'C06', 'src/zope/testrunner/__init__.py',
+     "        script_parts[0] = os.path.abspath(script_parts[0])",
+     "        script_parts[0] = os.path.realpath(script_parts[0])"),
     ('gc-threshold-not-restored', 'C18', 'src/zope/testrunner/garbagecollection.py',
      "        gc.set_threshold(*self.old_threshold)", "        pass"),
     ('teardown-not-in-finally', 'C18', R,
